@@ -12,6 +12,7 @@ import (
 	"net"
 	"net/http"
 	"net/url"
+	"runtime"
 	"strings"
 	"time"
 
@@ -739,6 +740,16 @@ func subRealDial() mon.Sub {
 			_, port, _ := net.SplitHostPort(l.Addr().String())
 			ustr := fmt.Sprintf("ws://%s:%s%s", host, port, []string{"/", "/chat?x=1", "", "/a%20b/c"}[c.I/3%4])
 			tr := trailing(c, 4096, c.I)
+			// how the dial context ends once Dial has returned: 0 it does not (Background + a far deadline); 1 the
+			// caller cancels it (the defer cancel() of the function that dialled); 2 Dialer.Timeout is set (the derived
+			// context is cancelled when Dial returns), the caller's context lives on. The connection is the caller's
+			// by then: bytes the server sends afterwards are readable like any others.
+			ctxEnd := c.I / 2 % 3
+			early := len(tr)
+			if ctxEnd != 0 || c.I%4 == 3 {
+				early = len(tr) / 3
+			}
+			lateGo := make(chan struct{})
 			type srvRes struct {
 				req   []byte
 				conns int
@@ -763,7 +774,15 @@ func subRealDial() mon.Sub {
 				}
 				if hr, err := http.ReadRequest(bufio.NewReader(bytes.NewReader(r.req))); err == nil {
 					resp := "HTTP/1.1 101 Switching Protocols\r\nUpgrade: websocket\r\nConnection: Upgrade\r\nSec-WebSocket-Accept: " + ref.Accept(hr.Header.Get("Sec-Websocket-Key")) + "\r\n\r\n"
-					cn.Write(append([]byte(resp), tr...))
+					cn.Write(append([]byte(resp), tr[:early]...))
+					if early < len(tr) {
+						// the rest is sent LATE: after Dial has returned and its context has ended
+						select {
+						case <-lateGo:
+						case <-time.After(20 * time.Second):
+						}
+						cn.Write(tr[early:])
+					}
 				}
 				cn.Close()
 				resCh <- r
@@ -794,11 +813,25 @@ func subRealDial() mon.Sub {
 				cn net.Conn
 				br *bufio.Reader
 			)
-			if mode == 0 {
+			det["dial_context_after_return"] = []string{"lives on", "cancelled by the caller", "Dialer.Timeout's derived context"}[ctxEnd]
+			switch {
+			case ctxEnd == 1:
+				cctx, ccancel := context.WithCancel(ctx)
+				if mode == 0 {
+					cn, br, _, err = ws.Dial(cctx, ustr)
+				} else {
+					cn, br, _, err = ws.Dialer{ReadBufferSize: bufSizes[c.I%len(bufSizes)]}.Dial(cctx, ustr)
+				}
+				ccancel()
+			case ctxEnd == 2:
+				cn, br, _, err = ws.Dialer{ReadBufferSize: bufSizes[c.I%len(bufSizes)], Timeout: time.Minute}.Dial(ctx, ustr)
+			case mode == 0:
 				cn, br, _, err = ws.Dial(ctx, ustr)
-			} else {
+			default:
 				cn, br, _, err = ws.Dialer{ReadBufferSize: bufSizes[c.I%len(bufSizes)]}.Dial(ctx, ustr)
 			}
+			runtime.Gosched()
+			close(lateGo)
 			if err != nil {
 				if host == "localhost" && strings.Contains(err.Error(), "lookup") {
 					c.Inconclusive("localhost does not resolve here")
@@ -814,8 +847,12 @@ func subRealDial() mon.Sub {
 				got = append(got, p...)
 				ws.PutReader(br)
 			}
-			cn.SetReadDeadline(time.Now().Add(20 * time.Second))
-			rest, _ := io.ReadAll(cn)
+			// (no deadline of the application's own on the connection: whatever state Dial left it in is what reads meet;
+			// a hang is ended by closing it)
+			guard := time.AfterFunc(20*time.Second, func() { cn.Close() })
+			rest, rerr := io.ReadAll(cn)
+			guard.Stop()
+			det["read_error_after_dial"] = fmt.Sprint(rerr)
 			got = append(got, rest...)
 			cn.Close()
 			r := <-resCh
